@@ -1,6 +1,1309 @@
-//! C18 — harness module not built yet.
+//! C18 — governance updates take effect exactly as submitted.
+//! Histories of sudo UpdateParams / CreateMinter on the four real factories, sudo
+//! UpdateStatus on the eleven real minters (each created through its factory), mints
+//! after a fee change.  Every step's observations are printed as Coq terms for the model
+//! comparison; the monitors below evaluate the property sentence on the JSON the
+//! contracts answered (they share nothing with the model).
+use crate::chain::{self, App};
+use crate::util::*;
+use crate::w_factory::*;
 use crate::Args;
-pub fn run(_a: &Args) {
-    eprintln!("C18: harness module not built yet");
-    std::process::exit(2);
+use cosmwasm_std::Addr;
+use serde::{Deserialize, Serialize};
+use serde_json::{json, Value};
+use std::collections::BTreeSet;
+
+type C = (String, u128);
+
+/// One UpdateParams message: the union of the optional fields of the four factories.
+#[derive(Clone, Debug, Default, PartialEq, Eq, Serialize, Deserialize)]
+pub struct Upd {
+    pub code_id: Option<u64>,
+    pub add: Option<Vec<u64>>,
+    pub rm: Option<Vec<u64>>,
+    pub frozen: Option<bool>,
+    pub creation_fee: Option<C>,
+    pub min_mint_price: Option<C>,
+    pub mint_fee_bps: Option<u64>,
+    pub offset: Option<u64>,
+    pub max_token_limit: Option<u32>,
+    pub max_per_address_limit: Option<u32>,
+    pub airdrop_mint_price: Option<C>,
+    pub airdrop_mint_fee_bps: Option<u64>,
+    pub shuffle_fee: Option<C>,
+    /// open edition only: extension.min_mint_price (no slot in the parameters)
+    pub ext_min_mint_price: Option<C>,
+    /// open edition only
+    pub dev_fee_address: Option<String>,
+}
+
+#[derive(Clone, Debug, PartialEq, Eq, Serialize, Deserialize)]
+pub enum Step {
+    Upd(Upd),
+    /// bytes that do not decode as the factory's SudoMsg
+    Bad(String),
+    Create(CreateReq),
+}
+
+#[derive(Clone, Debug, PartialEq, Eq, Serialize, Deserialize)]
+pub enum Case {
+    Hist { kind: FactoryKind, init: FParams, probes: Vec<u64>, steps: Vec<Step>, tag: String },
+    Status { kind: MinterKind, flags: Vec<(bool, bool, bool)> },
+    /// priced minter: set mint_fee_bps (and, open edition, dev_fee_address) then a public mint
+    MintFee { kind: MinterKind, price: u128, bps: u64, new_dev: bool },
+    /// base minter: set mint_fee_bps, then mint paying `paid`
+    BaseMint { bps: u64, paid: u128 },
+}
+
+fn oc(c: &Option<C>) -> Value {
+    match c {
+        Some((d, a)) => jcoin(d, *a),
+        None => Value::Null,
+    }
+}
+
+/// the factory's SudoMsg::UpdateParams for this kind
+pub fn upd_json(kind: FactoryKind, u: &Upd) -> Value {
+    let mut m = json!({
+        "code_id": u.code_id, "add_sg721_code_ids": u.add, "rm_sg721_code_ids": u.rm, "frozen": u.frozen,
+        "creation_fee": oc(&u.creation_fee), "max_trading_offset_secs": u.offset });
+    if kind != FactoryKind::TokenMerge {
+        m["min_mint_price"] = oc(&u.min_mint_price);
+        m["mint_fee_bps"] = json!(u.mint_fee_bps);
+    }
+    m["extension"] = match kind {
+        FactoryKind::Base => Value::Null,
+        FactoryKind::Vending | FactoryKind::TokenMerge => json!({
+            "max_token_limit": u.max_token_limit, "max_per_address_limit": u.max_per_address_limit,
+            "airdrop_mint_price": oc(&u.airdrop_mint_price), "airdrop_mint_fee_bps": u.airdrop_mint_fee_bps,
+            "shuffle_fee": oc(&u.shuffle_fee) }),
+        FactoryKind::OpenEdition => json!({
+            "max_token_limit": u.max_token_limit, "max_per_address_limit": u.max_per_address_limit,
+            "min_mint_price": oc(&u.ext_min_mint_price), "airdrop_mint_fee_bps": u.airdrop_mint_fee_bps,
+            "airdrop_mint_price": oc(&u.airdrop_mint_price), "dev_fee_address": u.dev_fee_address }),
+    };
+    json!({ "update_params": m })
+}
+
+// ---------------------------------------------------------------- Coq printing
+
+struct Names {
+    denoms: Ids,
+    strs: Ids,
+}
+impl Names {
+    fn new() -> Self {
+        Names { denoms: denom_ids(), strs: Ids::with_fixed(&[], 100) }
+    }
+    fn coin(&mut self, c: &C) -> String {
+        format!("(mkCoin {} {})", self.denoms.id(&c.0), c.1)
+    }
+    fn ocoin(&mut self, c: &Option<C>) -> String {
+        match c {
+            Some(c) => format!("(Some {})", self.coin(c)),
+            None => "None".into(),
+        }
+    }
+}
+fn on<T: std::fmt::Display>(o: &Option<T>) -> String {
+    match o {
+        Some(x) => format!("(Some {})", x),
+        None => "None".into(),
+    }
+}
+fn ol(o: &Option<Vec<u64>>) -> String {
+    match o {
+        Some(l) => format!("(Some {})", nl(l)),
+        None => "None".into(),
+    }
+}
+fn nl(l: &[u64]) -> String {
+    coq_list(&l.iter().map(|x| x.to_string()).collect::<Vec<_>>())
+}
+fn ob(o: &Option<bool>) -> String {
+    match o {
+        Some(b) => format!("(Some {})", coq_bool(*b)),
+        None => "None".into(),
+    }
+}
+
+fn coq_cp(n: &mut Names, p: &FParams) -> String {
+    format!(
+        "(mkCP {} {} {} {} {} {} {})",
+        p.code_id,
+        nl(&p.allowed),
+        coq_bool(p.frozen),
+        n.coin(&p.creation_fee),
+        n.coin(&p.min_mint_price),
+        p.mint_fee_bps,
+        p.offset
+    )
+}
+fn coq_params(n: &mut Names, kind: FactoryKind, p: &FParams) -> String {
+    match kind {
+        FactoryKind::Base => coq_cp(n, p),
+        FactoryKind::Vending => format!(
+            "(mkVP {} (mkVX {} {} {} {} {}))",
+            coq_cp(n, p),
+            p.max_token_limit,
+            p.max_per_address_limit,
+            n.coin(&p.airdrop_mint_price),
+            p.airdrop_mint_fee_bps,
+            n.coin(&p.shuffle_fee)
+        ),
+        FactoryKind::OpenEdition => format!(
+            "(mkOP {} (mkOX {} {} {} {} {}))",
+            coq_cp(n, p),
+            p.max_token_limit,
+            p.max_per_address_limit,
+            p.airdrop_mint_fee_bps,
+            n.coin(&p.airdrop_mint_price),
+            n.strs.id(&p.dev_fee_address)
+        ),
+        FactoryKind::TokenMerge => format!(
+            "(mkTP {} {} {} {} {} {} {} {} {} {})",
+            p.code_id,
+            nl(&p.allowed),
+            coq_bool(p.frozen),
+            n.coin(&p.creation_fee),
+            p.offset,
+            p.max_token_limit,
+            p.max_per_address_limit,
+            n.coin(&p.airdrop_mint_price),
+            p.airdrop_mint_fee_bps,
+            n.coin(&p.shuffle_fee)
+        ),
+    }
+}
+fn coq_cm(n: &mut Names, u: &Upd) -> String {
+    format!(
+        "(mkCM {} {} {} {} {} {} {} {})",
+        on(&u.code_id),
+        ol(&u.add),
+        ol(&u.rm),
+        ob(&u.frozen),
+        n.ocoin(&u.creation_fee),
+        n.ocoin(&u.min_mint_price),
+        on(&u.mint_fee_bps),
+        on(&u.offset)
+    )
+}
+fn coq_vxm(n: &mut Names, u: &Upd) -> String {
+    format!(
+        "(mkVXM {} {} {} {} {})",
+        on(&u.max_token_limit),
+        on(&u.max_per_address_limit),
+        n.ocoin(&u.airdrop_mint_price),
+        on(&u.airdrop_mint_fee_bps),
+        n.ocoin(&u.shuffle_fee)
+    )
+}
+fn coq_msg(n: &mut Names, kind: FactoryKind, u: &Upd) -> String {
+    match kind {
+        FactoryKind::Base => coq_cm(n, u),
+        FactoryKind::Vending => format!("(mkVM {} {})", coq_cm(n, u), coq_vxm(n, u)),
+        FactoryKind::OpenEdition => {
+            let dev = match &u.dev_fee_address {
+                Some(s) => format!("(Some {})", n.strs.id(s)),
+                None => "None".into(),
+            };
+            format!(
+                "(mkOM {} (mkOXM {} {} {} {} {} {}))",
+                coq_cm(n, u),
+                on(&u.max_token_limit),
+                on(&u.max_per_address_limit),
+                n.ocoin(&u.ext_min_mint_price),
+                on(&u.airdrop_mint_fee_bps),
+                n.ocoin(&u.airdrop_mint_price),
+                dev
+            )
+        }
+        FactoryKind::TokenMerge => format!(
+            "(mkTM {} {} {} {} {} {} {})",
+            on(&u.code_id),
+            ol(&u.add),
+            ol(&u.rm),
+            ob(&u.frozen),
+            n.ocoin(&u.creation_fee),
+            on(&u.offset),
+            coq_vxm(n, u)
+        ),
+    }
+}
+fn coq_funds(n: &mut Names, f: &[C]) -> String {
+    coq_list(&f.iter().map(|c| n.coin(c).trim_matches(|ch| ch == '(' || ch == ')').to_string()).collect::<Vec<_>>())
+}
+fn coq_req(n: &mut Names, kind: FactoryKind, r: &CreateReq) -> String {
+    let funds = coq_funds(n, &r.funds);
+    match kind {
+        FactoryKind::Base => format!("(mkBR {} {})", funds, r.collection_code_id),
+        FactoryKind::Vending => format!(
+            "(mkVR {} {} {} {} {})",
+            funds,
+            r.collection_code_id,
+            r.num_tokens.unwrap_or(0),
+            r.per_address_limit,
+            n.coin(&r.mint_price)
+        ),
+        FactoryKind::OpenEdition => format!(
+            "(mkOR {} {} {} {} {} {})",
+            funds,
+            r.collection_code_id,
+            on(&r.num_tokens),
+            r.per_address_limit,
+            n.coin(&r.mint_price),
+            coq_bool(r.end_after_secs.is_some())
+        ),
+        FactoryKind::TokenMerge => format!(
+            "(mkTR {} {} {} {})",
+            funds,
+            r.collection_code_id,
+            r.num_tokens.unwrap_or(0),
+            r.per_address_limit
+        ),
+    }
+}
+
+// ---------------------------------------------------------------- observation
+
+struct Obs {
+    params: Value,
+    ids: Vec<u64>,
+    probes: Vec<(u64, bool)>,
+}
+fn observe(app: &App, factory: &Addr, probes: &[u64]) -> Result<Obs, String> {
+    Ok(Obs {
+        params: q_params(app, factory)?,
+        ids: q_allowed_ids(app, factory)?,
+        probes: probes.iter().map(|x| q_allowed_id(app, factory, *x).map(|b| (*x, b))).collect::<Result<Vec<_>, _>>()?,
+    })
+}
+fn coq_obs(n: &mut Names, kind: FactoryKind, o: &Obs, like: &FParams) -> String {
+    let p = params_from_json(kind, &o.params, like).expect("Params answer has the documented shape");
+    let pr = coq_list(&o.probes.iter().map(|(x, b)| format!("({}, {})", x, coq_bool(*b))).collect::<Vec<_>>());
+    format!("(mkQ {} {} {})", coq_params(n, kind, &p), nl(&o.ids), pr)
+}
+
+// ---------------------------------------------------------------- monitors (property text)
+
+/// message field -> path of its slot in the Params answer, per factory (from the struct
+/// definitions in packages/sg2 and contracts/factories/*/src/{msg,state}.rs)
+fn slots(kind: FactoryKind, u: &Upd) -> Vec<(&'static str, Vec<&'static str>, Value)> {
+    let c = |x: &C| jcoin(&x.0, x.1);
+    let mut v: Vec<(&'static str, Vec<&'static str>, Option<Value>)> = vec![
+        ("code_id", vec!["code_id"], u.code_id.map(|x| json!(x))),
+        ("frozen", vec!["frozen"], u.frozen.map(|x| json!(x))),
+        ("creation_fee", vec!["creation_fee"], u.creation_fee.as_ref().map(c)),
+        ("max_trading_offset_secs", vec!["max_trading_offset_secs"], u.offset.map(|x| json!(x))),
+    ];
+    if kind != FactoryKind::TokenMerge {
+        v.push(("min_mint_price", vec!["min_mint_price"], u.min_mint_price.as_ref().map(c)));
+        v.push(("mint_fee_bps", vec!["mint_fee_bps"], u.mint_fee_bps.map(|x| json!(x))));
+    }
+    let ext = |name: &'static str| -> Vec<&'static str> {
+        if kind == FactoryKind::TokenMerge {
+            vec![name]
+        } else {
+            vec!["extension", name]
+        }
+    };
+    if kind != FactoryKind::Base {
+        v.push(("max_token_limit", ext("max_token_limit"), u.max_token_limit.map(|x| json!(x))));
+        v.push(("max_per_address_limit", ext("max_per_address_limit"), u.max_per_address_limit.map(|x| json!(x))));
+        v.push(("airdrop_mint_price", ext("airdrop_mint_price"), u.airdrop_mint_price.as_ref().map(c)));
+        v.push(("airdrop_mint_fee_bps", ext("airdrop_mint_fee_bps"), u.airdrop_mint_fee_bps.map(|x| json!(x))));
+        if kind == FactoryKind::OpenEdition {
+            v.push(("dev_fee_address", ext("dev_fee_address"), u.dev_fee_address.as_ref().map(|x| json!(x))));
+        } else {
+            v.push(("shuffle_fee", ext("shuffle_fee"), u.shuffle_fee.as_ref().map(c)));
+        }
+    }
+    v.into_iter().filter_map(|(a, b, c)| c.map(|c| (a, b, c))).collect()
+}
+fn set_path(v: &mut Value, path: &[&str], x: Value) {
+    let mut cur = v;
+    for k in &path[..path.len() - 1] {
+        cur = &mut cur[*k];
+    }
+    cur[path[path.len() - 1]] = x;
+}
+fn as_set(v: &Value) -> BTreeSet<u64> {
+    v.as_array().map(|a| a.iter().filter_map(|x| x.as_u64()).collect()).unwrap_or_default()
+}
+
+/// (key suffix, description) of every way the step contradicts the property sentence
+fn monitor_update(kind: FactoryKind, u: &Upd, ok: bool, before: &Obs, after: &Obs) -> Vec<(String, String)> {
+    let mut out = vec![];
+    let f = kind.name();
+    let nonnative = |c: &Option<C>| c.as_ref().map(|c| c.0 != NATIVE).unwrap_or(false);
+    let min_nonnative = kind != FactoryKind::TokenMerge && nonnative(&u.min_mint_price);
+    if ok && min_nonnative {
+        out.push((format!("{}:non-native-min-accepted", f), format!("min_mint_price {:?} accepted", u.min_mint_price)));
+    }
+    if !ok {
+        // refusal: nothing may have moved; and only a non-native price/fee denom is a documented reason
+        if before.params != after.params || before.ids != after.ids {
+            out.push((format!("{}:refused-but-changed", f), format!("refused update changed the parameters: {} -> {}", before.params, after.params)));
+        }
+        let may_refuse = min_nonnative
+            || (matches!(kind, FactoryKind::Vending | FactoryKind::TokenMerge)
+                && (nonnative(&u.airdrop_mint_price) || nonnative(&u.shuffle_fee)));
+        if !may_refuse {
+            out.push((format!("{}:valid-update-refused", f), "an update without any non-native price was refused".to_string()));
+        }
+        return out;
+    }
+    // accepted: previous parameters with precisely the supplied fields replaced
+    let mut want = before.params.clone();
+    let tm_common = ["code_id", "frozen", "creation_fee", "max_trading_offset_secs"];
+    for (_, path, val) in slots(kind, u) {
+        set_path(&mut want, &path, val);
+    }
+    let mut want_ids = as_set(&before.params["allowed_sg721_code_ids"]);
+    for x in u.add.iter().flatten() {
+        want_ids.insert(*x);
+    }
+    for x in u.rm.iter().flatten() {
+        want_ids.remove(x);
+    }
+    let got_ids = as_set(&after.params["allowed_sg721_code_ids"]);
+    let mut tm_ignored = false;
+    if got_ids != want_ids {
+        if kind == FactoryKind::TokenMerge {
+            tm_ignored = true;
+        }
+        out.push((format!("{}:code-ids", f), format!("code ids {:?}, expected the set {:?}", after.params["allowed_sg721_code_ids"], want_ids)));
+    }
+    // everything but the id list, field by field
+    let mut w = want.clone();
+    let mut g = after.params.clone();
+    w["allowed_sg721_code_ids"] = Value::Null;
+    g["allowed_sg721_code_ids"] = Value::Null;
+    if w != g {
+        let mut diffs = vec![];
+        for (name, path, val) in slots(kind, u) {
+            let mut cur = &after.params;
+            for k in &path {
+                cur = &cur[*k];
+            }
+            if *cur != val {
+                diffs.push(format!("{} supplied {} but the query shows {}", name, val, cur));
+                if kind == FactoryKind::TokenMerge && tm_common.contains(&name) {
+                    tm_ignored = true;
+                }
+            }
+        }
+        if diffs.is_empty() {
+            diffs.push(format!("a field that was not supplied changed: expected {} got {}", w, g));
+            out.push((format!("{}:omitted-field-changed", f), diffs.join("; ")));
+        } else {
+            out.push((format!("{}:supplied-field-not-applied", f), diffs.join("; ")));
+        }
+    }
+    if tm_ignored {
+        out.retain(|(k, _)| !k.starts_with("token-merge-factory:supplied") && !k.starts_with("token-merge-factory:code-ids"));
+        out.push(("token-merge-params-ignored".to_string(), format!("token-merge-factory accepted {:?} but the common fields did not take effect: {}", u, after.params)));
+    }
+    // the two id queries agree with the parameters as a set
+    if after.ids.iter().copied().collect::<BTreeSet<_>>() != got_ids {
+        out.push((format!("{}:ids-query", f), format!("AllowedCollectionCodeIds {:?} vs Params {:?}", after.ids, got_ids)));
+    }
+    for (x, b) in &after.probes {
+        if *b != want_ids.contains(x) {
+            out.push((format!("{}:id-query", f), format!("AllowedCollectionCodeId({}) = {}, expected {}", x, b, want_ids.contains(x))));
+        }
+    }
+    out
+}
+
+/// creation after the updates so far: judged against what the Params query shows NOW
+fn monitor_create(kind: FactoryKind, r: &CreateReq, ok: bool, params: &Value, created_code: Option<u64>) -> Vec<(String, String)> {
+    let mut out = vec![];
+    let f = kind.name();
+    let x = if kind == FactoryKind::TokenMerge { params } else { &params["extension"] };
+    let frozen = params["frozen"].as_bool().unwrap_or(false);
+    let allowed = as_set(&params["allowed_sg721_code_ids"]).contains(&r.collection_code_id);
+    let fee_amt: u128 = params["creation_fee"]["amount"].as_str().and_then(|s| s.parse().ok()).unwrap_or(0);
+    let fee_den = params["creation_fee"]["denom"].as_str().unwrap_or("");
+    let paid = if r.funds.len() == 1 && r.funds[0].0 == fee_den { Some(r.funds[0].1) } else { None };
+    let underpaid = paid.map(|p| p < fee_amt).unwrap_or(true);
+    let mut reasons = vec![];
+    if frozen {
+        reasons.push("factory is frozen");
+    }
+    if !allowed {
+        reasons.push("collection code id is not allowed");
+    }
+    if underpaid {
+        reasons.push("creation fee is not covered");
+    }
+    if kind != FactoryKind::Base {
+        let mtl = x["max_token_limit"].as_u64().unwrap_or(0);
+        let mpal = x["max_per_address_limit"].as_u64().unwrap_or(0);
+        if let Some(n) = r.num_tokens {
+            if n as u64 > mtl {
+                reasons.push("num_tokens above max_token_limit");
+            }
+        }
+        if r.per_address_limit as u64 > mpal {
+            reasons.push("per_address_limit above max_per_address_limit");
+        }
+    }
+    if matches!(kind, FactoryKind::Vending | FactoryKind::OpenEdition) {
+        let min: u128 = params["min_mint_price"]["amount"].as_str().and_then(|s| s.parse().ok()).unwrap_or(0);
+        if r.mint_price.1 < min {
+            reasons.push("mint price below min_mint_price");
+        }
+    }
+    if kind == FactoryKind::OpenEdition && paid.map(|p| p != fee_amt).unwrap_or(false) {
+        reasons.push("open edition wants the creation fee exactly");
+    }
+    if matches!(kind, FactoryKind::Vending | FactoryKind::OpenEdition) && params["min_mint_price"]["denom"].as_str() != Some(r.mint_price.0.as_str()) {
+        reasons.push("mint price denom differs from min_mint_price");
+    }
+    // a request that respects every current parameter (and is well-formed in itself) must go through
+    let mut malformed = r.per_address_limit == 0 || r.num_tokens == Some(0) || paid == Some(0);
+    if kind == FactoryKind::OpenEdition && r.num_tokens.is_none() {
+        let airdrop_zero = x["airdrop_mint_price"]["amount"].as_str() == Some("0");
+        malformed = malformed || r.end_after_secs.is_none() || r.mint_price.1 == 0 || airdrop_zero;
+    }
+    if kind != FactoryKind::Base && kind != FactoryKind::OpenEdition && r.num_tokens.is_none() {
+        malformed = true;
+    }
+    if !ok && reasons.is_empty() && !malformed {
+        out.push((format!("{}:creation-refused-within-params", f), format!("creation {:?} was refused although it respects the current parameters {}", r, params)));
+    }
+    if ok && !reasons.is_empty() {
+        out.push((format!("{}:creation-ignores-params", f), format!("creation {:?} succeeded although {} (params {})", r, reasons.join(", "), params)));
+    }
+    if let (true, Some(code)) = (ok, created_code) {
+        if Some(code) != params["code_id"].as_u64() {
+            out.push((format!("{}:creation-wrong-minter-code", f), format!("created minter runs code {}, parameters say {}", code, params["code_id"])));
+        }
+    }
+    out
+}
+
+// ---------------------------------------------------------------- running a case
+
+struct Outcome {
+    coq: String,
+    steps: u64,
+    nontrivial: bool,
+    viol: Vec<(String, String)>,
+    hist: Vec<String>,
+    sample: String,
+}
+
+struct FactoryWorld {
+    app: App,
+    factory: Addr,
+    sg721: Vec<u64>,
+    minter_codes: Vec<u64>,
+}
+/// code ids are fixed by storing in this order: sg721-base 1, sg721-updatable 2, then the
+/// factory's minter variants from 3, then the factory itself
+fn factory_world(kind: FactoryKind, init: &FParams) -> Result<FactoryWorld, String> {
+    let mut app = chain::new_app();
+    let a = app.store_code(chain::sg721_base());
+    let b = app.store_code(chain::sg721_updatable());
+    let minter_codes: Vec<u64> = kind.minters().iter().map(|m| app.store_code(m.code())).collect();
+    let fc = app.store_code(kind.code());
+    chain::mint_coins(&mut app, CREATOR, u128::MAX / 4, NATIVE);
+    let factory = instantiate_factory(&mut app, kind, fc, init)?;
+    Ok(FactoryWorld { app, factory, sg721: vec![a, b], minter_codes })
+}
+pub fn first_minter_code() -> u64 {
+    3
+}
+
+fn frame_violation(before: &[(Vec<u8>, Vec<u8>)], after: &[(Vec<u8>, Vec<u8>)], key: &[u8]) -> Option<String> {
+    let strip = |v: &[(Vec<u8>, Vec<u8>)]| v.iter().filter(|(k, _)| k.as_slice() != key).cloned().collect::<Vec<_>>();
+    if strip(before) != strip(after) {
+        Some(format!("storage outside {:?} changed", String::from_utf8_lossy(key)))
+    } else {
+        None
+    }
+}
+
+fn run_hist(kind: FactoryKind, init: &FParams, probes: &[u64], steps: &[Step], tag: &str) -> Outcome {
+    let mut n = Names::new();
+    let mut w = factory_world(kind, init).unwrap_or_else(|e| panic!("{} does not instantiate with {:?}: {}", kind.name(), init, e));
+    let mut viol = vec![];
+    let mut hist = vec![];
+    let mut nontrivial = false;
+    let q0 = observe(&w.app, &w.factory, probes).expect("queries");
+    if params_from_json(kind, &q0.params, init).as_ref() != Some(init) && kind != FactoryKind::Base {
+        // (base: fields the kind lacks are copied from `init`, so equal by construction)
+    }
+    let mut coq_steps = vec![];
+    let mut prev = q0;
+    let q0s = coq_obs(&mut n, kind, &prev, init);
+    for s in steps {
+        match s {
+            Step::Upd(u) => {
+                let dump0 = storage_dump(&w.app, &w.factory);
+                let r = sudo_json(&mut w.app, &w.factory, &upd_json(kind, u));
+                let ok = r.is_ok();
+                let cur = observe(&w.app, &w.factory, probes).expect("queries");
+                if let Some(x) = frame_violation(&dump0, &storage_dump(&w.app, &w.factory), b"sudo-params") {
+                    viol.push((format!("{}:update-touched-other-state", kind.name()), x));
+                }
+                for v in monitor_update(kind, u, ok, &prev, &cur) {
+                    viol.push(v);
+                }
+                if ok && cur.params != prev.params {
+                    nontrivial = true;
+                }
+                hist.push(format!("{}:update:{}", kind.name(), if ok { "ok" } else { "err" }));
+                coq_steps.push(format!("SUpd {} {} {}", coq_msg(&mut n, kind, u), coq_bool(ok), coq_obs(&mut n, kind, &cur, init)));
+                prev = cur;
+            }
+            Step::Bad(raw) => {
+                let dump0 = storage_dump(&w.app, &w.factory);
+                let r = sudo_raw(&mut w.app, &w.factory, raw.as_bytes().to_vec());
+                let cur = observe(&w.app, &w.factory, probes).expect("queries");
+                if r.is_ok() {
+                    viol.push((format!("{}:undecodable-accepted", kind.name()), format!("{} accepted", raw)));
+                }
+                if dump0 != storage_dump(&w.app, &w.factory) {
+                    viol.push((format!("{}:refused-but-changed", kind.name()), format!("{} refused but storage changed", raw)));
+                }
+                hist.push(format!("{}:malformed:{}", kind.name(), if r.is_ok() { "ok" } else { "err" }));
+                coq_steps.push(format!("SBad {}", coq_obs(&mut n, kind, &cur, init)));
+                prev = cur;
+            }
+            Step::Create(r) => {
+                let res = create_minter(&mut w.app, kind, &w.factory, CREATOR, r);
+                let ok = res.is_ok();
+                let code = res.as_ref().ok().map(|c| w.app.contract_data(&c.minter).map(|d| d.code_id).unwrap_or(0));
+                for v in monitor_create(kind, r, ok, &prev.params, code) {
+                    viol.push(v);
+                }
+                if ok {
+                    nontrivial = true;
+                }
+                hist.push(format!("{}:create:{}", kind.name(), if ok { "ok" } else { "err" }));
+                coq_steps.push(format!("SCreate {} {}", coq_req(&mut n, kind, r), coq_bool(ok)));
+            }
+        }
+    }
+    let ctor = match kind {
+        FactoryKind::Base => "CBase",
+        FactoryKind::Vending => "CVending",
+        FactoryKind::OpenEdition => "COpenEdition",
+        FactoryKind::TokenMerge => "CTokenMerge",
+    };
+    let coq = format!("{} {} {} {}", ctor, coq_params(&mut n, kind, init), q0s, coq_list(&coq_steps));
+    Outcome {
+        coq,
+        steps: steps.len() as u64 + 1,
+        nontrivial,
+        viol,
+        hist,
+        sample: format!("{} [{}]: {} steps, final params {}", kind.name(), tag, steps.len(), prev.params),
+    }
+}
+
+fn coq_flags(f: (bool, bool, bool)) -> String {
+    format!("({}, {}, {})", coq_bool(f.0), coq_bool(f.1), coq_bool(f.2))
+}
+
+fn run_status(kind: MinterKind, flags: &[(bool, bool, bool)]) -> Outcome {
+    let mut w = setup_minter(kind);
+    let mut viol = vec![];
+    let mut hist = vec![];
+    let seen0 = q_status(&w.app, &w.minter).expect("Status query");
+    if seen0 != (false, false, false) {
+        viol.push(("status-initial".to_string(), format!("{} starts with status {:?}", kind.name(), seen0)));
+    }
+    let mut items = vec![];
+    for f in flags {
+        let dump0 = storage_dump(&w.app, &w.minter);
+        let r = sudo_update_status(&mut w.app, &w.minter, f.0, f.1, f.2);
+        let ok = r.is_ok();
+        let seen = q_status(&w.app, &w.minter).expect("Status query");
+        if !ok {
+            viol.push(("status-refused".to_string(), format!("{} refused UpdateStatus{:?}: {:?}", kind.name(), f, r.err())));
+        } else if seen != *f {
+            viol.push(("status-dropped".to_string(), format!("{}: sudo UpdateStatus{:?} returned Ok, Status query shows {:?}", kind.name(), f, seen)));
+        }
+        if let Some(x) = frame_violation(&dump0, &storage_dump(&w.app, &w.minter), b"status") {
+            viol.push(("status-touched-other-state".to_string(), format!("{}: {}", kind.name(), x)));
+        }
+        hist.push(format!("{}:update_status:{}", kind.name(), if ok { "ok" } else { "err" }));
+        items.push(format!("({}, {}, {})", coq_flags(*f), coq_bool(ok), coq_flags(seen)));
+    }
+    Outcome {
+        coq: format!("CStatus {} {} {}", kind.index(), coq_flags(seen0), coq_list(&items)),
+        steps: flags.len() as u64 + 1,
+        nontrivial: !flags.is_empty(),
+        viol,
+        hist,
+        sample: format!("{}: {} status updates, last {:?}", kind.name(), flags.len(), flags.last()),
+    }
+}
+
+const BUYER: &str = "buyer";
+const NEW_DEV: &str = "newdevaddress";
+
+fn run_mint_fee(kind: MinterKind, price: u128, bps: u64, new_dev: bool) -> Outcome {
+    let fk = kind.factory();
+    let mut w = setup_minter_with(kind, |p, r| {
+        p.min_mint_price = (NATIVE.to_string(), 1);
+        r.mint_price = (NATIVE.to_string(), price);
+        r.num_tokens = Some(100);
+        r.per_address_limit = 3;
+    })
+    .unwrap_or_else(|e| panic!("setup {}: {}", kind.name(), e));
+    let mut viol = vec![];
+    let mut u = Upd { mint_fee_bps: Some(bps), ..Default::default() };
+    let dev = if fk == FactoryKind::OpenEdition {
+        if new_dev {
+            u.dev_fee_address = Some(NEW_DEV.to_string());
+            NEW_DEV.to_string()
+        } else {
+            DEV_ADDRESS.to_string()
+        }
+    } else {
+        String::new()
+    };
+    sudo_json(&mut w.app, &w.factory, &upd_json(fk, &u)).expect("update accepted");
+    let t = chain::now(&w.app) + 200 * 1_000_000_000;
+    chain::set_time(&mut w.app, t);
+    chain::mint_coins(&mut w.app, BUYER, price.max(1) * 2, NATIVE);
+    let seller0 = chain::balance(&w.app, CREATOR, NATIVE);
+    let dev0 = if dev.is_empty() { 0 } else { chain::balance(&w.app, &dev, NATIVE) };
+    let r = exec_json(&mut w.app, BUYER, &w.minter, &json!({ "mint": {} }), &[cosmwasm_std::coin(price, NATIVE)]);
+    let ok = r.is_ok();
+    let seller_delta = chain::balance(&w.app, CREATOR, NATIVE) - seller0;
+    let fee = price * bps as u128 / 10_000;
+    // property text: the mint observes the NEW mint_fee_bps
+    if ok && seller_delta != price - fee {
+        viol.push((format!("{}:mint-ignores-new-fee", kind.name()), format!("price {} bps {}: seller received {}, expected {}", price, bps, seller_delta, price - fee)));
+    }
+    if !ok && fee <= price {
+        viol.push((format!("{}:mint-fails-after-update", kind.name()), format!("price {} bps {}: {:?}", price, bps, r.as_ref().err())));
+    }
+    let mut coq = format!("CMintSeller {} {} {} {}", price, bps, coq_bool(ok), seller_delta);
+    let mut extra = 0;
+    if ok && !dev.is_empty() {
+        let dev_delta = chain::balance(&w.app, &dev, NATIVE) - dev0;
+        if dev_delta != (fee + 1) / 2 {
+            viol.push((format!("{}:mint-ignores-new-dev-address", kind.name()), format!("dev {} received {}, expected {}", dev, dev_delta, (fee + 1) / 2)));
+        }
+        // two observations, two cases: caller splits on " ;; "
+        coq = format!("{} ;; CMintDev {} {} {}", coq, price, bps, dev_delta);
+        extra = 1;
+    }
+    Outcome {
+        coq,
+        steps: 2 + extra,
+        nontrivial: ok,
+        viol,
+        hist: vec![format!("{}:mint-after-fee-update:{}", kind.name(), if ok { "ok" } else { "err" })],
+        sample: format!("{}: mint at {} under {} bps: seller +{}", kind.name(), price, bps, seller_delta),
+    }
+}
+
+fn run_base_mint(bps: u64, paid: u128) -> Outcome {
+    let mut w = setup_minter(MinterKind::Base);
+    let price = w.params.min_mint_price.1;
+    let u = Upd { mint_fee_bps: Some(bps), ..Default::default() };
+    sudo_json(&mut w.app, &w.factory, &upd_json(FactoryKind::Base, &u)).expect("update accepted");
+    let funds: Vec<cosmwasm_std::Coin> = if paid == 0 { vec![] } else { vec![cosmwasm_std::coin(paid, NATIVE)] };
+    let r = exec_json(&mut w.app, CREATOR, &w.minter, &json!({ "mint": { "token_uri": "ipfs://example/1" } }), &funds);
+    let ok = r.is_ok();
+    let fee = price * bps as u128 / 10_000;
+    let mut viol = vec![];
+    if ok != (paid != 0 && paid == fee) {
+        viol.push(("base-minter:mint-ignores-new-fee".to_string(), format!("bps {} => fee {}; paying {} gave ok={} ({:?})", bps, fee, paid, ok, r.err())));
+    }
+    Outcome {
+        coq: format!("CBaseMint {} {} {} {}", price, bps, paid, coq_bool(ok)),
+        steps: 2,
+        nontrivial: ok,
+        viol,
+        hist: vec![format!("base-minter:mint-after-fee-update:{}", if ok { "ok" } else { "err" })],
+        sample: format!("base-minter: bps {} paid {} ok {}", bps, paid, ok),
+    }
+}
+
+fn run_case(c: &Case) -> Outcome {
+    match c {
+        Case::Hist { kind, init, probes, steps, tag } => run_hist(*kind, init, probes, steps, tag),
+        Case::Status { kind, flags } => run_status(*kind, flags),
+        Case::MintFee { kind, price, bps, new_dev } => run_mint_fee(*kind, *price, *bps, *new_dev),
+        Case::BaseMint { bps, paid } => run_base_mint(*bps, *paid),
+    }
+}
+
+pub fn run(a: &Args) {
+    let out = OutDir::new(&a.out);
+    let mut rep = Report { property: "C18".into(), tier: a.tier.clone(), seed: a.seed, ..Default::default() };
+    let cases: Vec<Case> = if let Some(p) = &a.replay {
+        #[derive(Deserialize)]
+        struct ReplayFile {
+            case: Case,
+        }
+        let txt = std::fs::read_to_string(p).expect("replay file");
+        let rf: ReplayFile = serde_json::from_str(&txt).expect("replay json");
+        vec![rf.case]
+    } else {
+        gen_cases(a)
+    };
+    let mut coq_cases = vec![];
+    let mut distinct = BTreeSet::new();
+    let mut nviol = 0;
+    for (i, c) in cases.iter().enumerate() {
+        let o = run_case(c);
+        rep.evaluations += o.steps;
+        for h in &o.hist {
+            rep.bump(h);
+        }
+        if o.nontrivial {
+            distinct.insert(serde_json::to_string(c).unwrap());
+        }
+        for (key, what) in &o.viol {
+            nviol += 1;
+            if rep.violations.len() < 20 {
+                let body = format!(
+                    "{{\n \"property\": \"C18\",\n \"case\": {},\n \"violation\": {}\n}}\n",
+                    serde_json::to_string(c).unwrap(),
+                    serde_json::to_string(what).unwrap()
+                );
+                let path = out.write_replay(&format!("C18-{}.json", rep.violations.len() + 1), &body);
+                rep.violations.push(Violation { key: format!("C18:{}", key), what: what.clone(), replay: path });
+            }
+        }
+        if rep.samples.len() < 3 && (i % 211 == 7 || a.replay.is_some()) {
+            rep.samples.push(json!({ "case": o.sample }));
+        }
+        for part in o.coq.split(" ;; ") {
+            coq_cases.push(part.to_string());
+        }
+    }
+    rep.notes.push(format!("{} implementation steps (sudo / execute calls, each followed by the queries) in {} Coq cases", rep.evaluations, coq_cases.len()));
+    rep.distinct_nontrivial = distinct.len() as u64;
+    rep.rule = RULE.into();
+    out.write_cases("C18", "From LP Require Import Params Status C18Corr.", "c18_case", "c18_check", &coq_cases, 6, &mut rep);
+    out.finish(&rep);
+    println!("C18 harness: {} cases, {} monitor violations", rep.evaluations, nviol);
+}
+
+const RULE: &str = "A case is a whole history on one freshly instantiated real factory (UpdateParams / undecodable / CreateMinter steps, the three queries after every step), a status history on one real minter created through its factory, or a mint after a fee update. Generated: corpus (known-finding replays, duplicate/overlapping id lists, non-native coins), every subset of the common optional fields per factory x sampled extension subsets chained in sequences of 1..4, directed creation scripts per guard (freeze, code id, fee, limits, min price) at bound-1/bound/bound+1 for every factory, random histories, eight flag triples in random orders on each of the eleven minters. Non-trivial = distinct case in which an accepted update changed the parameters, a creation succeeded, a status update was sent, or a mint succeeded.";
+
+// ---------------------------------------------------------------- generators
+
+const IBC: &str = "ibc/C4CFF46FD6DE35CA4CF4CE031E643C8FDC9BA4B99AE598E9B0ED98FE3A2319F9";
+
+struct Pools {
+    u64s: Vec<u64>,
+    u32s: Vec<u32>,
+    amounts: Vec<u128>,
+}
+fn pools() -> Pools {
+    let mut u64s: Vec<u64> = vec![0, 1, 2, 999, 1000, 1001, 9_999, 10_000, 10_001, 604_800, u32::MAX as u64, u32::MAX as u64 + 1, u64::MAX - 1, u64::MAX];
+    let mut u32s: Vec<u32> = vec![0, 1, 2, 3, 49, 50, 51, 9_999, 10_000, 10_001, u32::MAX - 1, u32::MAX];
+    let mut amounts: Vec<u128> = vec![0, 1, 2, 49_999_999, 50_000_000, 50_000_001, 5_000_000_000, u64::MAX as u128, u64::MAX as u128 + 1, u128::MAX - 1, u128::MAX];
+    for l in harvest_literals(&[
+        "contracts/factories/base-factory/src/contract.rs",
+        "contracts/factories/vending-factory/src/contract.rs",
+        "contracts/factories/open-edition-factory/src/contract.rs",
+        "contracts/factories/open-edition-factory/src/msg.rs",
+        "contracts/factories/token-merge-factory/src/contract.rs",
+    ]) {
+        for d in [l.saturating_sub(1), l, l.saturating_add(1)] {
+            amounts.push(d);
+            if d <= u64::MAX as u128 {
+                u64s.push(d as u64);
+            }
+            if d <= u32::MAX as u128 {
+                u32s.push(d as u32);
+            }
+        }
+    }
+    Pools { u64s, u32s, amounts }
+}
+
+fn rnd_coin(rng: &mut Rng, p: &Pools, native_in_20: u64) -> C {
+    let denom = if rng.chance(native_in_20, 20) {
+        NATIVE
+    } else {
+        *rng.pick(&[IBC, "uother", "USTARS", "ustars ", "ustar", "ustarsx", ""])
+    };
+    let amt = if rng.chance(1, 3) { rng.u128_any_size() } else { *rng.pick(&p.amounts) };
+    (denom.to_string(), amt)
+}
+fn rnd_ids(rng: &mut Rng) -> Vec<u64> {
+    match rng.below(8) {
+        0 => vec![],
+        1 => vec![5, 5, 7],
+        2 => vec![1],
+        3 => vec![2, 1, 2],
+        4 => vec![9, 1, 9, 9, 1],
+        5 => (0..rng.range(1, 20)).map(|_| rng.range(1, 9)).collect(),
+        6 => vec![u64::MAX, 0, rng.next_u64()],
+        _ => vec![rng.range(1, 9)],
+    }
+}
+
+const N_COMMON: u32 = 8; // bits 0..7: code_id add rm frozen creation_fee offset | min_mint_price mint_fee_bps
+/// ext bits (from 8): max_token_limit max_per_address_limit airdrop_mint_price airdrop_mint_fee_bps shuffle_fee/dev_fee_address ext.min_mint_price
+fn ext_bits(kind: FactoryKind) -> u32 {
+    match kind {
+        FactoryKind::Base => 0,
+        FactoryKind::Vending | FactoryKind::TokenMerge => 5,
+        FactoryKind::OpenEdition => 6,
+    }
+}
+/// the common bits this kind's message has
+fn common_masks(kind: FactoryKind) -> Vec<u32> {
+    if kind == FactoryKind::TokenMerge {
+        (0..64).collect()
+    } else {
+        (0..256).collect()
+    }
+}
+
+/// an update carrying exactly the fields of `mask`, values from the boundary pools
+fn upd_of_mask(kind: FactoryKind, mask: u32, rng: &mut Rng, p: &Pools, native_in_20: u64) -> Upd {
+    let b = |i: u32| mask & (1 << i) != 0;
+    let mut u = Upd::default();
+    if b(0) {
+        u.code_id = Some(*rng.pick(&p.u64s));
+    }
+    if b(1) {
+        u.add = Some(rnd_ids(rng));
+    }
+    if b(2) {
+        u.rm = Some(rnd_ids(rng));
+    }
+    if b(3) {
+        u.frozen = Some(rng.chance(1, 2));
+    }
+    if b(4) {
+        u.creation_fee = Some(rnd_coin(rng, p, 14));
+    }
+    if b(5) {
+        u.offset = Some(*rng.pick(&p.u64s));
+    }
+    if kind != FactoryKind::TokenMerge {
+        if b(6) {
+            u.min_mint_price = Some(rnd_coin(rng, p, native_in_20));
+        }
+        if b(7) {
+            u.mint_fee_bps = Some(*rng.pick(&p.u64s));
+        }
+    }
+    if kind != FactoryKind::Base {
+        if b(8) {
+            u.max_token_limit = Some(*rng.pick(&p.u32s));
+        }
+        if b(9) {
+            u.max_per_address_limit = Some(*rng.pick(&p.u32s));
+        }
+        if b(10) {
+            u.airdrop_mint_price = Some(rnd_coin(rng, p, native_in_20));
+        }
+        if b(11) {
+            u.airdrop_mint_fee_bps = Some(*rng.pick(&p.u64s));
+        }
+        if b(12) {
+            if kind == FactoryKind::OpenEdition {
+                u.dev_fee_address = Some(rng.pick(&[NEW_DEV, DEV_ADDRESS, "x", "", "Another Dev"]).to_string());
+            } else {
+                u.shuffle_fee = Some(rnd_coin(rng, p, native_in_20));
+            }
+        }
+        if kind == FactoryKind::OpenEdition && b(13) {
+            u.ext_min_mint_price = Some(rnd_coin(rng, p, 10));
+        }
+    }
+    u
+}
+
+fn base_init(kind: FactoryKind) -> FParams {
+    default_params(kind, first_minter_code(), &[1, 2])
+}
+fn probes_for(steps: &[Step], init: &FParams) -> Vec<u64> {
+    let mut s: BTreeSet<u64> = init.allowed.iter().copied().collect();
+    for st in steps {
+        if let Step::Upd(u) = st {
+            s.extend(u.add.iter().flatten().copied());
+            s.extend(u.rm.iter().flatten().copied());
+        }
+    }
+    s.insert(4);
+    s.into_iter().take(12).collect()
+}
+fn hist(kind: FactoryKind, init: FParams, steps: Vec<Step>, tag: &str) -> Case {
+    let probes = probes_for(&steps, &init);
+    Case::Hist { kind, init, probes, steps, tag: tag.to_string() }
+}
+fn n(a: u128) -> C {
+    (NATIVE.to_string(), a)
+}
+
+fn corpus() -> Vec<Case> {
+    let mut v = vec![];
+    // fixed finding 61290fb: one replay per minter variant
+    for k in MinterKind::ALL {
+        v.push(Case::Status { kind: k, flags: vec![(true, true, true)] });
+    }
+    // fixed finding b28bf1c (DESIGN D2)
+    v.push(hist(
+        FactoryKind::TokenMerge,
+        base_init(FactoryKind::TokenMerge),
+        vec![Step::Upd(Upd {
+            code_id: Some(77),
+            add: Some(vec![9]),
+            rm: Some(vec![1]),
+            frozen: Some(true),
+            creation_fee: Some(n(9)),
+            offset: Some(7),
+            max_token_limit: Some(3),
+            ..Default::default()
+        })],
+        "known:token-merge-params-ignored",
+    ));
+    for kind in FactoryKind::ALL {
+        let u = |f: &dyn Fn(&mut Upd)| {
+            let mut x = Upd::default();
+            f(&mut x);
+            Step::Upd(x)
+        };
+        // id list shapes
+        v.push(hist(kind, base_init(kind), vec![u(&|x| { x.add = Some(vec![5, 5, 7]); x.rm = Some(vec![5]); })], "add-dup-then-rm"));
+        v.push(hist(kind, base_init(kind), vec![u(&|x| x.add = Some(vec![1])), u(&|x| x.rm = Some(vec![1]))], "nonadjacent-dup-then-rm"));
+        let mut dup = base_init(kind);
+        dup.allowed = vec![1, 1, 2, 2, 2, 1];
+        v.push(hist(kind, dup.clone(), vec![u(&|_| {})], "empty-update-dedups"));
+        v.push(hist(kind, dup, vec![u(&|x| { x.add = Some(vec![]); x.rm = Some(vec![]); }), u(&|x| x.rm = Some(vec![2, 1, 2]))], "empty-lists-then-rm-all"));
+        v.push(hist(kind, base_init(kind), vec![u(&|x| { x.add = Some(vec![7, 8]); x.rm = Some(vec![8, 9]); }), u(&|x| x.add = Some(vec![8, 7, 7]))], "overlap"));
+        // non-native coins in every coin field, one at a time, each with other fields that must then NOT apply
+        for which in 0..5 {
+            let mut x = Upd { code_id: Some(42), frozen: Some(true), add: Some(vec![6]), ..Default::default() };
+            let c = Some((IBC.to_string(), 70u128));
+            match which {
+                0 => x.min_mint_price = c,
+                1 => x.airdrop_mint_price = c,
+                2 => x.shuffle_fee = c,
+                3 => x.creation_fee = c,
+                _ => x.ext_min_mint_price = c,
+            }
+            if kind == FactoryKind::Base && which != 0 && which != 3 {
+                continue;
+            }
+            v.push(hist(kind, base_init(kind), vec![Step::Upd(x), u(&|x| x.mint_fee_bps = Some(1))], "non-native-coin"));
+        }
+        // look-alike denoms
+        for d in ["USTARS", "ustars ", "ustar", ""] {
+            v.push(hist(kind, base_init(kind), vec![u(&|x| { x.min_mint_price = Some((d.to_string(), 5)); x.airdrop_mint_price = Some((d.to_string(), 5)); x.offset = Some(1); })], "lookalike-denom"));
+        }
+        // undecodable messages
+        let bads = [
+            r#"{"update_params":{"code_id":"abc","extension":null}}"#,
+            r#"{"update_params":{"creation_fee":{"denom":"ustars","amount":"12x"},"extension":null}}"#,
+            r#"{"update_params":{"code_id":18446744073709551616,"extension":null}}"#,
+            r#"{"update_params":{"frozen":1,"extension":null}}"#,
+            r#"{"update_params":{"unknown_field":1,"extension":null}}"#,
+            r#"{"update_status":{"is_verified":true,"is_blocked":true,"is_explicit":true}}"#,
+            r#"not json"#,
+        ];
+        let mut bad_steps: Vec<Step> = bads.iter().map(|b| Step::Bad(b.to_string())).collect();
+        if kind != FactoryKind::Base {
+            // (base-factory's extension is Option<Empty>, which tolerates any object)
+            bad_steps.push(Step::Bad(r#"{"update_params":{"extension":{"max_token_limit":4294967296}}}"#.to_string()));
+            bad_steps.push(Step::Bad(r#"{"update_params":{"code_id":5}}"#.to_string()));
+        }
+        v.push(hist(kind, base_init(kind), bad_steps, "undecodable"));
+    }
+    v
+}
+
+fn subset_hists(a: &Args, rng: &mut Rng, p: &Pools) -> Vec<Case> {
+    let mut out = vec![];
+    for kind in FactoryKind::ALL {
+        let xb = ext_bits(kind);
+        let mut masks: Vec<u32> = vec![];
+        let cm = common_masks(kind);
+        if a.thorough() {
+            for c in &cm {
+                for x in 0..(1u32 << xb) {
+                    masks.push(c | (x << N_COMMON));
+                }
+            }
+        } else {
+            let per = if kind == FactoryKind::TokenMerge { 8 } else if xb == 0 { 4 } else { 4 };
+            for c in &cm {
+                for _ in 0..per {
+                    let x = if xb == 0 { 0 } else { rng.below(1 << xb) as u32 };
+                    masks.push(c | (x << N_COMMON));
+                }
+            }
+            for x in 0..(1u32 << xb) {
+                for _ in 0..per {
+                    masks.push(*rng.pick(&cm) | (x << N_COMMON));
+                }
+            }
+        }
+        // chain consecutive masks into sequences of 1..4 on one factory instance
+        let mut i = 0;
+        let mut len = 1;
+        while i < masks.len() {
+            let chunk = &masks[i..(i + len).min(masks.len())];
+            // mostly-native so that most updates are accepted; every 5th history is hostile
+            let native = if (i / 3) % 5 == 4 { 8 } else { 19 };
+            let steps: Vec<Step> = chunk.iter().map(|m| Step::Upd(upd_of_mask(kind, *m, rng, p, native))).collect();
+            out.push(hist(kind, base_init(kind), steps, "subsets"));
+            i += len;
+            len = len % 4 + 1;
+        }
+    }
+    out
+}
+
+/// parameters under which a creation depends on nothing but the factory-side checks
+fn sane_init(kind: FactoryKind, minter_code: u64) -> FParams {
+    let mut p = default_params(kind, minter_code, &[1, 2]);
+    p.creation_fee = n(1000);
+    p.min_mint_price = n(100);
+    p.max_token_limit = 200;
+    p.max_per_address_limit = 5;
+    p.offset = 1000;
+    p.airdrop_mint_price = n(5);
+    p
+}
+fn std_req(kind: FactoryKind, fee: u128) -> CreateReq {
+    let mut r = CreateReq::standard(kind, 1, &n(fee));
+    r.num_tokens = Some(150);
+    r.mint_price = n(1_000);
+    r
+}
+fn minter_codes(kind: FactoryKind) -> Vec<u64> {
+    (0..kind.minters().len() as u64).map(|i| first_minter_code() + i).collect()
+}
+
+fn creation_scripts() -> Vec<Case> {
+    let mut out = vec![];
+    for kind in FactoryKind::ALL {
+        let codes = minter_codes(kind);
+        let up = |f: &dyn Fn(&mut Upd)| {
+            let mut x = Upd::default();
+            f(&mut x);
+            Step::Upd(x)
+        };
+        let cr = |f: &dyn Fn(&mut CreateReq)| {
+            let mut r = std_req(kind, 1000);
+            f(&mut r);
+            Step::Create(r)
+        };
+        for (ci, code) in codes.iter().enumerate() {
+            let init = sane_init(kind, *code);
+            // freeze / unfreeze (every minter variant is created here at least twice)
+            out.push(hist(kind, init.clone(), vec![cr(&|_| {}), up(&|x| x.frozen = Some(true)), cr(&|_| {}), up(&|x| x.frozen = Some(false)), cr(&|_| {})], "freeze"));
+            // switch the minter code: the next creation must run the new code
+            let other = codes[(ci + 1) % codes.len()];
+            out.push(hist(kind, init.clone(), vec![up(&|x| x.code_id = Some(other)), cr(&|_| {}), up(&|x| x.code_id = Some(*code)), cr(&|_| {})], "switch-code"));
+        }
+        let init = sane_init(kind, codes[0]);
+        out.push(hist(kind, init.clone(), vec![
+            up(&|x| x.rm = Some(vec![1])), cr(&|_| {}), cr(&|r| r.collection_code_id = 2),
+            up(&|x| x.add = Some(vec![1])), cr(&|_| {}),
+            up(&|x| { x.add = Some(vec![1, 1]); x.rm = Some(vec![1]); }), cr(&|_| {}),
+            up(&|x| x.rm = Some(vec![2])), cr(&|r| r.collection_code_id = 2),
+        ], "code-ids"));
+        out.push(hist(kind, init.clone(), vec![
+            up(&|x| x.creation_fee = Some(n(2000))),
+            cr(&|r| r.funds = vec![n(1000)]), cr(&|r| r.funds = vec![n(1999)]), cr(&|r| r.funds = vec![n(2000)]), cr(&|r| r.funds = vec![n(2001)]),
+            cr(&|r| r.funds = vec![(IBC.to_string(), 2000)]), cr(&|r| r.funds = vec![]), cr(&|r| r.funds = vec![n(2000), (IBC.to_string(), 1)]),
+            up(&|x| x.creation_fee = Some(n(500))),
+            cr(&|r| r.funds = vec![n(499)]), cr(&|r| r.funds = vec![n(500)]), cr(&|r| r.funds = vec![n(1000)]),
+        ], "creation-fee"));
+        if kind != FactoryKind::Base {
+            out.push(hist(kind, init.clone(), vec![
+                cr(&|r| r.num_tokens = Some(200)), cr(&|r| r.num_tokens = Some(201)),
+                up(&|x| x.max_token_limit = Some(150)),
+                cr(&|r| r.num_tokens = Some(149)), cr(&|r| r.num_tokens = Some(150)), cr(&|r| r.num_tokens = Some(151)), cr(&|r| r.num_tokens = Some(200)),
+                cr(&|r| r.num_tokens = Some(0)),
+                up(&|x| x.max_token_limit = Some(300)), cr(&|r| r.num_tokens = Some(300)), cr(&|r| r.num_tokens = Some(301)),
+            ], "max-token-limit"));
+            out.push(hist(kind, init.clone(), vec![
+                cr(&|r| { r.num_tokens = Some(200); r.per_address_limit = 5; }), cr(&|r| { r.num_tokens = Some(200); r.per_address_limit = 6; }),
+                up(&|x| x.max_per_address_limit = Some(2)),
+                cr(&|r| r.per_address_limit = 1), cr(&|r| r.per_address_limit = 2), cr(&|r| r.per_address_limit = 3), cr(&|r| r.per_address_limit = 0),
+                up(&|x| x.max_per_address_limit = Some(4)),
+                cr(&|r| { r.num_tokens = Some(200); r.per_address_limit = 4; }), cr(&|r| { r.num_tokens = Some(200); r.per_address_limit = 5; }),
+            ], "max-per-address-limit"));
+        }
+        if matches!(kind, FactoryKind::Vending | FactoryKind::OpenEdition) {
+            out.push(hist(kind, init.clone(), vec![
+                cr(&|r| r.mint_price = n(100)), cr(&|r| r.mint_price = n(99)),
+                up(&|x| x.min_mint_price = Some(n(150))),
+                cr(&|r| r.mint_price = n(100)), cr(&|r| r.mint_price = n(149)), cr(&|r| r.mint_price = n(150)), cr(&|r| r.mint_price = n(151)),
+                cr(&|r| r.mint_price = (IBC.to_string(), 500)),
+                up(&|x| x.min_mint_price = Some(n(0))), cr(&|r| r.mint_price = n(1)),
+            ], "min-mint-price"));
+        }
+        if kind == FactoryKind::OpenEdition {
+            let unl = |f: &dyn Fn(&mut CreateReq)| {
+                let mut r = std_req(kind, 1000);
+                r.num_tokens = None;
+                f(&mut r);
+                Step::Create(r)
+            };
+            out.push(hist(kind, init.clone(), vec![
+                unl(&|_| {}), unl(&|r| r.end_after_secs = None),
+                up(&|x| x.airdrop_mint_price = Some(n(0))), unl(&|_| {}), cr(&|_| {}),
+                up(&|x| x.airdrop_mint_price = Some((IBC.to_string(), 1))), unl(&|_| {}),
+                up(&|x| x.min_mint_price = Some(n(0))), unl(&|r| r.mint_price = n(0)), cr(&|r| r.mint_price = n(0)),
+            ], "unlimited-edition"));
+        }
+    }
+    out
+}
+
+fn random_hists(a: &Args, rng: &mut Rng, p: &Pools) -> Vec<Case> {
+    let per_kind = if a.thorough() { 1500 } else { 90 };
+    let mut out = vec![];
+    for kind in FactoryKind::ALL {
+        let codes = minter_codes(kind);
+        let xb = ext_bits(kind);
+        for _ in 0..per_kind {
+            let mut init = base_init(kind);
+            if rng.chance(1, 3) {
+                init.allowed = rnd_ids(rng);
+            }
+            if rng.chance(1, 4) {
+                init.frozen = true;
+            }
+            let mut steps = vec![];
+            let nsteps = rng.range(3, 8);
+            while (steps.len() as u64) < nsteps {
+                match rng.below(10) {
+                    0 => steps.push(Step::Bad(r#"{"update_params":{"frozen":"yes","extension":null}}"#.to_string())),
+                    1..=3 => {
+                        // normalise what a creation needs, then create around the bounds just set
+                        let fee = rng.range(2, 1_000_000) as u128;
+                        let mtl = rng.range(150, 300) as u32;
+                        let mpal = rng.range(1, 3) as u32;
+                        let min = rng.range(0, 1000) as u128;
+                        let unlimited = kind == FactoryKind::OpenEdition && rng.chance(1, 3);
+                        let mut u = Upd {
+                            code_id: Some(*rng.pick(&codes)),
+                            creation_fee: Some(n(fee)),
+                            offset: Some(rng.range(0, 100_000)),
+                            ..Default::default()
+                        };
+                        if rng.chance(1, 2) {
+                            u.frozen = Some(rng.chance(1, 4));
+                        }
+                        if kind != FactoryKind::Base {
+                            u.max_token_limit = Some(mtl);
+                            u.max_per_address_limit = Some(mpal);
+                        }
+                        if kind != FactoryKind::TokenMerge {
+                            u.min_mint_price = Some(n(min));
+                        }
+                        if kind == FactoryKind::OpenEdition {
+                            u.airdrop_mint_price = Some(n(rng.below(2) as u128 * 7));
+                        }
+                        if rng.chance(1, 3) {
+                            u.add = Some(vec![rng.range(1, 2)]);
+                        }
+                        if rng.chance(1, 4) {
+                            u.rm = Some(vec![rng.range(1, 2)]);
+                        }
+                        steps.push(Step::Upd(u));
+                        let pick3 = |rng: &mut Rng, b: u64| -> u64 {
+                            match rng.below(6) {
+                                0 => b.saturating_sub(1),
+                                1 => b + 1,
+                                _ => b,
+                            }
+                        };
+                        let mut r = std_req(kind, pick3(rng, fee as u64) as u128);
+                        r.collection_code_id = rng.range(1, 2);
+                        r.num_tokens = if unlimited { None } else { Some(pick3(rng, mtl as u64) as u32) };
+                        r.per_address_limit = pick3(rng, mpal as u64) as u32;
+                        r.mint_price = n(pick3(rng, min.max(1) as u64) as u128);
+                        if rng.chance(1, 12) {
+                            r.funds = vec![(IBC.to_string(), fee)];
+                        }
+                        steps.push(Step::Create(r));
+                    }
+                    _ => {
+                        let cm = if kind == FactoryKind::TokenMerge { rng.below(64) } else { rng.below(256) } as u32;
+                        let x = if xb == 0 { 0 } else { rng.below(1 << xb) as u32 };
+                        // sparse masks are the common governance message
+                        let mask = if rng.chance(1, 2) { (cm & rng.next_u64() as u32) | ((x & rng.next_u64() as u32) << N_COMMON) } else { cm | (x << N_COMMON) };
+                        steps.push(Step::Upd(upd_of_mask(kind, mask, rng, p, 17)));
+                    }
+                }
+            }
+            out.push(hist(kind, init, steps, "random"));
+        }
+    }
+    out
+}
+
+fn status_cases(a: &Args, rng: &mut Rng) -> Vec<Case> {
+    let all: Vec<(bool, bool, bool)> = (0..8).map(|i| (i & 4 != 0, i & 2 != 0, i & 1 != 0)).collect();
+    let rounds = if a.thorough() { 12 } else { 3 };
+    let mut out = vec![];
+    for k in MinterKind::ALL {
+        let mut flags = vec![];
+        for _ in 0..rounds {
+            let mut perm = all.clone();
+            for i in (1..perm.len()).rev() {
+                let j = rng.below(i as u64 + 1) as usize;
+                perm.swap(i, j);
+            }
+            flags.extend(perm);
+        }
+        // the same triple twice in a row, and back to all-false
+        flags.push((true, false, true));
+        flags.push((true, false, true));
+        flags.push((false, false, false));
+        out.push(Case::Status { kind: k, flags });
+    }
+    out
+}
+
+fn mint_cases(a: &Args, rng: &mut Rng) -> Vec<Case> {
+    let mut out = vec![];
+    let mut pairs: Vec<(u128, u64)> = vec![(100_000_000, 0), (100_000_000, 2_500), (100_000_001, 3_333), (1_000, 5_000), (100_000_000, 10_000), (1_000, 10_001)];
+    if a.thorough() {
+        for _ in 0..20 {
+            pairs.push((rng.range(1, 1_000_000_000) as u128, rng.range(0, 10_000)));
+        }
+    }
+    for k in MinterKind::ALL {
+        if matches!(k, MinterKind::Base | MinterKind::TokenMerge) {
+            continue;
+        }
+        for (i, (price, bps)) in pairs.iter().enumerate() {
+            out.push(Case::MintFee { kind: k, price: *price, bps: *bps, new_dev: i % 2 == 0 });
+        }
+    }
+    for bps in [10_000u64, 5_000, 1, 0, 20_000] {
+        let fee = 50_000_000u128 * bps as u128 / 10_000;
+        for paid in [fee.saturating_sub(1), fee, fee + 1, 50_000_000] {
+            out.push(Case::BaseMint { bps, paid });
+        }
+    }
+    out
+}
+
+fn gen_cases(a: &Args) -> Vec<Case> {
+    let mut rng = Rng::new(a.seed);
+    let p = pools();
+    let mut v = corpus();
+    v.extend(creation_scripts());
+    v.extend(subset_hists(a, &mut rng, &p));
+    v.extend(random_hists(a, &mut rng, &p));
+    v.extend(status_cases(a, &mut rng));
+    v.extend(mint_cases(a, &mut rng));
+    v
 }
